@@ -1,132 +1,16 @@
 (** Refs/CoherentRemove.v — C08_coherent through Tremove, under serverB's tree
-    invariant (Refs/TreeInv.v: [tree_ok], [tree_closed]) at the start of the
+    invariant (Refs/TreeInv.v: [tree_ok]) at the start of the
     request: a live non-fenced fidRef has a non-fenced parent, so the parent's
     File path is the path of the directory in both trees and the removal is
     [unlink_core].  Also: handlers that need the tree invariant ([gokT]).  (pathB) *)
 From Coq Require Import List Arith Bool ZArith Lia.
 From P9V Require Import Refs.Model Refs.PathFS Refs.RefProofs Refs.RefStep Refs.FenceProofs Refs.TreeInv
-  Refs.CoherentTree Refs.CoherentDefs Refs.CoherentFs Refs.CoherentFrame Refs.CoherentStep Refs.CoherentUnlink.
+  Refs.CoherentTree Refs.CoherentDefs Refs.CoherentFs Refs.CoherentFrame Refs.CoherentStep Refs.CoherentTreeHyp Refs.CoherentUnlink.
 Import ListNotations.
 
-Definition TH (s : st) : Prop := tree_ok pfs s /\ tree_closed pfs s.
-
-(** states with the same path tree, the same links and the same live fidRefs *)
-Definition tsame (s s' : st) : Prop :=
-  s_nodes pfs s' = s_nodes pfs s /\ TreeInv.rlen pfs s' = TreeInv.rlen pfs s /\ s_panic pfs s' = s_panic pfs s /\
-  forall q, fr_node (gref s' q) = fr_node (gref s q) /\ fr_parent (gref s' q) = fr_parent (gref s q) /\
-            fr_xattrOf (gref s' q) = fr_xattrOf (gref s q) /\ (ref_live pfs s' q <-> ref_live pfs s q).
-
-Lemma TH_tsame s s' : tsame s s' -> TH s -> TH s'.
-Proof.
-  intros (EN & ER & EP & EQ) (T & TC).
-  assert (GN : forall n, gnode s' n = gnode s n) by (intros; unfold get_node; rewrite EN; reflexivity).
-  assert (NL : TreeInv.nlen pfs s' = TreeInv.nlen pfs s) by (unfold TreeInv.nlen; rewrite EN; reflexivity).
-  assert (RG : forall n r nm, registered pfs s' n r nm <-> registered pfs s n r nm) by (intros; unfold registered; rewrite GN; tauto).
-  assert (IR : forall n nm r, in_refs pfs s' n nm r <-> in_refs pfs s n nm r) by (intros; unfold in_refs; rewrite GN; tauto).
-  assert (CN : forall n nm c, child_node pfs s' n nm c <-> child_node pfs s n nm c) by (intros; unfold child_node; rewrite GN; tauto).
-  assert (ND : forall n, node_deleted pfs s' n = node_deleted pfs s n) by (intros; unfold node_deleted; rewrite GN; reflexivity).
-  split.
-  - destruct T. constructor.
-    + intros n r nm Hn. rewrite NL in Hn. rewrite RG, IR. auto.
-    + intros n nm m Hn. rewrite NL in Hn. rewrite GN. eauto.
-    + intros n r nm Hn H. rewrite NL in Hn. apply RG in H. destruct (T_reg n r nm Hn H) as (A1 & A2 & p & A3 & A4 & A5 & A6).
-      rewrite ER. split; auto. split; [apply EQ; auto|]. exists p. destruct (EQ r) as (E1 & E2 & _). destruct (EQ p) as (E1' & _).
-      rewrite E2, E1', E1. repeat split; auto. apply CN. auto.
-    + intros r p Hr Lv Ep Dn. rewrite ER in Hr. destruct (EQ r) as (E1 & E2 & _ & E4). destruct (EQ p) as (E1' & _).
-      rewrite E2 in Ep. rewrite E1, ND in Dn. destruct (T_live r p Hr (proj1 E4 Lv) Ep Dn) as (nm & H). exists nm. rewrite E1'. apply RG. auto.
-    + intros n nm c Hn H. rewrite NL in *. apply CN in H. eauto.
-    + intros r Hr. rewrite ER in Hr. rewrite NL. destruct (EQ r) as (-> & _). auto.
-    + intros r p Hr H. rewrite ER in *. destruct (EQ r) as (_ & E2 & _). rewrite E2 in H. eauto.
-    + intros r o Hr H. rewrite ER in *. destruct (EQ r) as (_ & E2 & E3 & _). rewrite E3 in H. rewrite E2. eauto.
-    + intros n nm n' nm' c Hn Hn' H H'. rewrite NL in *. apply CN in H. apply CN in H'. eauto.
-    + intros n nm Hn H. rewrite NL in *. apply CN in H. eapply T_root; eauto.
-    + rewrite NL. auto.
-  - destruct TC. constructor.
-    + intros n nm c Hn Dn H. rewrite NL in Hn. rewrite ND in *. apply CN in H. eauto.
-    + rewrite EP. auto.
-Qed.
-
-Lemma tsame_hold r (s : st) : live s r -> tsame s (hold pfs r s).
-Proof.
-  intros Lv. split; [reflexivity|]. split; [unfold TreeInv.rlen, hold, incref, set_ref; cbn; apply upd_length|]. split; [reflexivity|].
-  intros q. unfold ref_live. change (gref (hold pfs r s) q) with (gref (incref pfs r s) q). unfold incref. rewrite gref_set_ref.
-  destruct ((q =? r) && (r <? rlen s)) eqn:X; [|repeat split; auto].
-  apply andb_prop in X. destruct X as (X & _). apply Nat.eqb_eq in X. subst q. cbn [fr_node fr_parent fr_xattrOf fr_refs fr_with_refs]. unfold live in Lv. repeat split; auto; intros; lia.
-Qed.
-
-(** the panic flag is sticky *)
-Lemma panic_bcall c (s : st) : s_panic pfs (snd (bcall_ pfs pfs_step c s)) = s_panic pfs s.
-Proof. unfold bcall_. destruct (pfs_step (s_be pfs s) c). reflexivity. Qed.
-
-Lemma panic_remove_child n r (s : st) : s_panic pfs s = true -> s_panic pfs (remove_child pfs n r s) = true.
-Proof. unfold remove_child. destruct (alookup _ _ _); auto. destruct (alookup _ _ _); auto. Qed.
-
-Lemma panic_decref fuel : forall r (s : st), s_panic pfs s = true -> s_panic pfs (snd (decref pfs pfs_step fuel r s)) = true.
-Proof.
-  induction fuel as [|f IH]; intros r s H; cbn [decref]; auto.
-  destruct (Z.eqb_spec (fr_refs (gref s r) - 1) 0); cbn [snd]; auto.
-  set (s1 := set_ref pfs r _ s).
-  assert (H1 : s_panic pfs s1 = true) by exact H.
-  assert (H2 : s_panic pfs (snd (match fr_xattrOf (gref s r) with
-                             | Some o => decref pfs pfs_step f o s1
-                             | None => let '(a, s2) := bcall_ pfs pfs_step (BClose (fr_file (gref s r))) s1 in
-                                       (match a with AErr e => Some e | _ => None end, s2)
-                             end)) = true).
-  { destruct (fr_xattrOf (gref s r)) as [o|]; [apply IH; auto|].
-    pose proof (panic_bcall (BClose (fr_file (gref s r))) s1) as E.
-    destruct (bcall_ pfs pfs_step _ s1) as [a s2]; cbn in *. congruence. }
-  destruct (match fr_xattrOf (gref s r) with Some o => _ | None => _ end) as [e1 s2]; cbn in H2.
-  destruct (fr_parent (gref s r)) as [p|]; cbn; auto.
-  pose proof (IH p (remove_child pfs (fr_node (gref s2 p)) r s2) (panic_remove_child _ _ _ H2)) as E.
-  destruct (decref pfs pfs_step f p _) as [e2 s4]; cbn in *. auto.
-Qed.
-
-Lemma panic_release r (s : st) : s_panic pfs (release pfs pfs_step r s) = false -> s_panic pfs s = false.
-Proof.
-  intros H. destruct (s_panic pfs s) eqn:E; auto. unfold release, decref_ in H.
-  rewrite (panic_decref _ r (with_held pfs (remove_one r (s_held pfs s)) s) E) in H. discriminate.
-Qed.
-
-(** handlers that need the tree invariant at their start, and that the request ends without a
-    run-time panic of the path-tree code (serverB's T_nopanic at the next request boundary) *)
-Definition gokT (pre : list nat) (f : st -> st) : Prop :=
-  forall s d g, RInvD s d -> heldall pre s -> TH s -> Good s g -> s_panic pfs (f s) = false -> Good (f s) g.
-
-Lemma gok_gokT pre f : gok pre f -> gokT pre f.
-Proof. intros H s d g I HP _ G _. eapply H; eauto. Qed.
-
-Lemma with_fid_gokT pre c fid body :
-  (forall r, gokT (r :: pre) (fun s => snd (body r s))) ->
-  gokT pre (fun s => snd (with_fid pfs pfs_step c fid body s)).
-Proof.
-  intros GB s d g Inv HP T G. unfold with_fid, lookup_fid.
-  destruct (alookup peqb (c, fid) (s_fids pfs s)) as [r|] eqn:E; [|cbn; auto]. intros HPn.
-  pose proof (C_fid pfs s r (alookup_in peqb peqb_spec _ _ _ E)) as Cr.
-  destruct (hold_ok pfs s d r Inv Cr) as (I1 & L1).
-  destruct (inv_live pfs s d r Inv Cr) as (_ & Lv).
-  assert (HP1 : heldall (r :: pre) (hold pfs r s)).
-  { intros x [<-|Hx].
-    - eapply led_hc_pos; [exact L1 | rewrite cnt_cons, ind_same; lia | reflexivity].
-    - eapply led_hc_pos; [exact L1 | specialize (HP x Hx); lia | reflexivity]. }
-  assert (G1 : Good (hold pfs r s) g) by (eapply shrink_good; [apply sh_hold; exact Lv | exact G]).
-  assert (T1 : TH (hold pfs r s)) by (eapply TH_tsame; [apply tsame_hold; exact Lv | exact T]).
-  specialize (GB r (hold pfs r s) d g I1 HP1 T1 G1).
-  cbv beta in GB. destruct (body r (hold pfs r s)) as [rep s2] eqn:EB. cbn [snd] in *.
-  eapply shrink_good; [apply sh_release | apply GB]. apply (panic_release r s2). exact HPn.
-Qed.
-
-(** a live, non-fenced fidRef has a non-fenced parent *)
-Lemma parent_nonf (s : st) r p : TH s -> r < rlen s -> live s r -> nonf s r -> fr_parent (gref s r) = Some p -> nonf s p.
-Proof.
-  intros (T & TC) Lr Lv Nf Ep.
-  destruct (T_live pfs s T r p Lr Lv Ep Nf) as (nm & Rg).
-  assert (Hp : p < TreeInv.rlen pfs s) by (eapply (T_parent_bound pfs s T); eauto).
-  pose proof (T_node_bound pfs s T p Hp) as Hn.
-  destruct (T_reg pfs s T _ r nm Hn Rg) as (_ & _ & p' & Ep' & _ & En & Cn).
-  unfold nonf, is_deleted in *. destruct (pn_deleted (gnode s (fr_node (gref s p)))) eqn:D; auto.
-  rewrite Ep in Ep'. injection Ep' as <-.
-  pose proof (T_deleted pfs s TC _ nm _ Hn D Cn) as X. unfold node_deleted in X. congruence.
-Qed.
+(** a live, non-fenced fidRef has a non-fenced parent (part of [Good]) *)
+Lemma parent_nonf (s : st) g r p : Good s g -> r < rlen s -> live s r -> nonf s r -> fr_parent (gref s r) = Some p -> nonf s p.
+Proof. intros G. apply (G_pnonf _ _ G). Qed.
 
 Lemma gokT_remove c fid : gokT [] (fun s => snd (do_remove pfs pfs_step c fid s)).
 Proof.
@@ -154,7 +38,7 @@ Proof.
     destruct (G_parent _ _ G r p Lr Ep) as (Tr & Tp & Lp).
     assert (Lvp : live s p).
     { destruct (inv_live pfs s d p Inv (C_parent pfs s r p Lr Lvr Ep)) as (_ & X). exact X. }
-    pose proof (parent_nonf s r p T Lr Lvr Nf Ep) as Nfp.
+    pose proof (parent_nonf s g r p G Lr Lvr Nf Ep) as Nfp.
     destruct (bcall_be (BUnlinkAt (fr_file (gref s p)) nm) s) as (E1 & E2 & E3 & E4 & E5 & _).
     pose proof (pfs_step_unlink (s_be pfs s) (fr_file (gref s p)) nm) as PU. cbv zeta in PU. rewrite <- E1, <- E2 in PU.
     destruct (bcall_ pfs pfs_step (BUnlinkAt (fr_file (gref s p)) nm) s) as [a s1]. cbn [fst snd] in *.
@@ -166,7 +50,8 @@ Proof.
     - rewrite Ea. cbn [snd]. rewrite GP1.
       eapply (unlink_core s s1 g (fr_node (gref s p)) nm (fpath s p) dd); eauto.
       + apply (G_node _ _ G); auto.
-      + apply (G_nbound _ _ G); auto. }
+      + apply (G_nbound _ _ G); auto.
+      + intros q0 p0 A1 A2 A3 A4. apply (p3_of_tree s q0 p0 T A1 A2 A3 A4). }
   destruct first as [err s1]. cbn [snd] in G1.
   destruct (s_panic pfs s1 && negb (s_panic pfs s)); [exact G1|].
   pose proof (sh_delete_fid c fid s1) as SD.
